@@ -143,6 +143,21 @@ func vGcWriteStalled(role string) {
 	}
 	if y.err == nil {
 		c.Fail = "write-reports-success-while-pump-stalled/" + role
+		return
+	}
+	// (3) two Writes wait at the same time: one with a long deadline, then one with a short one - each ends with its own
+	ctxA, cancelA := context.WithTimeout(context.Background(), 6*time.Second)
+	defer cancelA()
+	go func() { _ = tr.Write(ctxA, []byte("patient")) }()
+	time.Sleep(30 * time.Millisecond)
+	ctxB, cancelB := context.WithTimeout(context.Background(), 150*time.Millisecond)
+	z, ok := try(ctxB, 150*time.Millisecond+2*time.Second)
+	cancelB()
+	info["short_deadline_behind_a_patient_write"] = fmt.Sprintf("returned=%v err=%v took=%v", ok, z.err, z.took)
+	if !ok {
+		c.Fail = "write-ignores-context-while-another-write-waits/" + role
+		info["outcome"] = "Write under a 150 ms deadline has not returned 2 s after the deadline while another Write (6 s deadline) waits for the stalled pump"
+		return
 	}
 }
 
